@@ -461,18 +461,24 @@ func (svr *Service) handleConnection(ctx context.Context, conn net.Conn, interna
 			conn.Close()
 		}
 	case *msg.NewVisitorConn:
-		if err = svr.RegisterVisitorConn(conn, m); err != nil {
-			xl.Warnf("register visitor conn error: %v", err)
-			_ = msg.WriteMsg(conn, &msg.NewVisitorConnResp{
-				ProxyName: m.ProxyName,
-				Error:     util.GenerateResponseErrorString("register visitor conn error", err, lo.FromPtr(svr.cfg.DetailedErrorsToClient)),
-			})
-			conn.Close()
-		} else {
-			_ = msg.WriteMsg(conn, &msg.NewVisitorConnResp{
+		// The success response is written before the connection is handed to the proxy, otherwise
+		// bytes from the other end of the tunnel could reach the visitor in front of it.
+		answered := false
+		if err = svr.RegisterVisitorConn(conn, m, func() error {
+			answered = true
+			return msg.WriteMsg(conn, &msg.NewVisitorConnResp{
 				ProxyName: m.ProxyName,
 				Error:     "",
 			})
+		}); err != nil {
+			xl.Warnf("register visitor conn error: %v", err)
+			if !answered {
+				_ = msg.WriteMsg(conn, &msg.NewVisitorConnResp{
+					ProxyName: m.ProxyName,
+					Error:     util.GenerateResponseErrorString("register visitor conn error", err, lo.FromPtr(svr.cfg.DetailedErrorsToClient)),
+				})
+			}
+			conn.Close()
 		}
 	default:
 		log.Warnf("Error message type for the new connection [%s]", conn.RemoteAddr().String())
@@ -648,7 +654,7 @@ func (svr *Service) RegisterWorkConn(workConn net.Conn, newMsg *msg.NewWorkConn)
 	return ctl.RegisterWorkConn(workConn)
 }
 
-func (svr *Service) RegisterVisitorConn(visitorConn net.Conn, newMsg *msg.NewVisitorConn) error {
+func (svr *Service) RegisterVisitorConn(visitorConn net.Conn, newMsg *msg.NewVisitorConn, beforeHandOff func() error) error {
 	visitorUser := ""
 	// TODO(deprecation): Compatible with old versions, can be without runID, user is empty. In later versions, it will be mandatory to include runID.
 	// If runID is required, it is not compatible with versions prior to v0.50.0.
@@ -660,5 +666,5 @@ func (svr *Service) RegisterVisitorConn(visitorConn net.Conn, newMsg *msg.NewVis
 		visitorUser = ctl.loginMsg.User
 	}
 	return svr.rc.VisitorManager.NewConn(newMsg.ProxyName, visitorConn, newMsg.Timestamp, newMsg.SignKey,
-		newMsg.UseEncryption, newMsg.UseCompression, visitorUser)
+		newMsg.UseEncryption, newMsg.UseCompression, visitorUser, beforeHandOff)
 }
